@@ -3,4 +3,4 @@
 set -e
 rm -rf "$1"; mkdir -p "$1"
 cd /repo
-(git ls-files; ls zz_contracts_*_verif.go */zz_contracts_*_verif.go 2>/dev/null) | sort -u | grep -v '^examples/' | while read f; do [ -f "$f" ] && cp --parents "$f" "$1"/; done
+(git ls-files; ls zz_contracts_*_verif.go */zz_contracts_*_verif.go 2>/dev/null) | sort -u | while read f; do [ -f "$f" ] && cp --parents "$f" "$1"/; done
